@@ -604,6 +604,7 @@ class GLRParser(Parser):
         error = self.errors[-1]
         debug = self.debug
         self._active_heads = {}
+        recovered_at = None
         for head in self._last_shifted_heads:
             if debug:
                 input_str = head.input_str
@@ -626,7 +627,12 @@ class GLRParser(Parser):
                 successful = self.error_recovery(head, error, self.default_error_recovery)
 
             if successful:
-                error.location.end_position = head.position
+                # Heads may recover at different positions. Report the
+                # shortest skipped span, so that an error found later by
+                # the head that skipped the least is not inside this one.
+                if recovered_at is None or head.position < recovered_at:
+                    recovered_at = head.position
+                error.location.end_position = recovered_at
                 if debug:
                     a_print(
                         "New position is ",
